@@ -1039,6 +1039,8 @@ func (bits permission) String() string {
 	return string(perms)
 }
 
+func filetypeOf(v uint64) filetype { return filetype(v) }
+
 func getFiletype(filetype string) (filetype, error) {
 	switch strings.ToLower(filetype) {
 	case "file":
@@ -1056,6 +1058,15 @@ func getFiletype(filetype string) (filetype, error) {
 	case "fifo":
 		return fifoFiletype, nil
 	default:
+		// Accept the numeric form of a known type, as printed by
+		// ToCommandLine when resolveIds is false.
+		if v, err := strconv.ParseUint(filetype, 0, 32); err == nil {
+			switch ft := filetypeOf(v); ft {
+			case fileFiletype, dirFiletype, socketFiletype, linkFiletype,
+				characterFiletype, blockFiletype, fifoFiletype:
+				return ft, nil
+			}
+		}
 		return 0, fmt.Errorf("invalid filetype '%v'", filetype)
 	}
 }
